@@ -259,6 +259,10 @@ class OpsMixin(object):
                 return base.values[base.cls.fields.index(attr)]
             if attr in ("_replace", "_asdict"):
                 return BoundBuiltin(base, attr)
+            if attr == "_fields":
+                return ListV([Const(f) for f in base.cls.fields], "tuple")
+            if hasattr(tuple, attr) or attr in ("_make", "_field_defaults", "_fields_defaults"):
+                self.err(node, "named tuple attribute %s" % attr)        # exists in Python, not modelled here
             raise RaiseSignal(ExcV(ExtV("builtins.AttributeError"), [Const(attr)]), node)
         if isinstance(base, Opaque):
             if self.__dict__.get("attr_guard", 0):
